@@ -428,7 +428,7 @@ def plain_world(world, values):
     return objs
 
 
-def asan_seq(so_asan, calls, world, values, timeout=40):
+def asan_seq(so_asan, calls, world, values, timeout=40, alloc='malloc'):
     """Run calls on exact-size malloc'ed objects under AddressSanitizer. Returns ('asan', report) | ('ok', rets) | ('error', msg) | ('crash', sig) | ..."""
     import subprocess, tempfile
     def conv(args):
@@ -439,7 +439,7 @@ def asan_seq(so_asan, calls, world, values, timeout=40):
                 nm = str(v); out.append([ty, values[nm] if nm in values else tonum(z3.simplify(v))])
             else: out.append([ty, v])
         return out
-    spec = {'so': so_asan, 'objs': plain_world(world, values), 'calls': [[f, conv(a), r] for f, a, r in calls]}
+    spec = {'so': so_asan, 'objs': plain_world(world, values), 'calls': [[f, conv(a), r] for f, a, r in calls], 'alloc': alloc}
     fd, path = tempfile.mkstemp(suffix='.json'); os.write(fd, json.dumps(spec).encode()); os.close(fd)
     env = dict(os.environ, LD_PRELOAD=ASAN_RT, ASAN_OPTIONS='detect_leaks=0:exitcode=77:abort_on_error=0:allocator_may_return_null=1:detect_odr_violation=0:symbolize=0:fast_unwind_on_fatal=1', PYTHONMALLOC='malloc')
     try:
@@ -467,8 +467,14 @@ def make_asan_replay(so_asan_fn, calls, world):
     """replay closure for memory-safety obligations: reproduced iff ASan reports (or the process dies with a signal)"""
     def replay(model, witness):
         values = world.concretise(model)
-        st = asan_seq(so_asan_fn() if callable(so_asan_fn) else so_asan_fn, calls, world, values)
-        detail = {'native': st[0], 'report': str(st[1])[:600] if len(st) > 1 else None, 'inputs': {k: v for k, v in list(values.items())[:40]}}
+        lib = so_asan_fn() if callable(so_asan_fn) else so_asan_fn
+        st = asan_seq(lib, calls, world, values); how = 'exact-size malloc under AddressSanitizer'
+        if st[0] not in ('asan', 'crash'):
+            # far out-of-bounds accesses jump over ASan's red zones: repeat with every object placed against an inaccessible guard page (after, then before)
+            for alloc in ('end', 'start'):
+                st2 = asan_seq(lib, calls, world, values, alloc=alloc)
+                if st2[0] in ('asan', 'crash'): st = st2; how = 'objects placed against an inaccessible guard page (%s)' % alloc; break
+        detail = {'native': st[0], 'allocation': how, 'report': str(st[1])[:600] if len(st) > 1 else None, 'inputs': {k: v for k, v in list(values.items())[:40]}}
         return st[0] in ('asan', 'crash'), detail
     return replay
 
